@@ -112,6 +112,11 @@ pub open spec fn spec_parse_storage(d: Seq<u8>, index: int) -> SParse {
         }
     }
 }
+// every reception time produced by the two parsers is below 2^53 us (the bound unit lifecycle assumes for its time arithmetic)
+pub proof fn lemma_parsed_reception_time_bounded(d: Seq<u8>)
+    requires d.len() >= 12,
+    ensures 0 <= storage_rtime(d) < 0x20_0000_0000_0000, 0 <= serial_rtime() < 0x20_0000_0000_0000, // O:parsed.rtime_bound
+{}
 pub open spec fn serial_ecu() -> Seq<u8> { seq![0x44u8, 0x4cu8, 0x53u8, 0u8] }
 pub open spec fn serial_rtime() -> int { 1671408000int * 1_000_000int }
 #[verifier::opaque]
